@@ -80,3 +80,14 @@ def cases(tier, seed, ctx=None):
         for name, pol, later in POLICIES[:5] if tier == "quick" else POLICIES:
             for segs in G.partitions_for(rng, stream, tier, exhaustive_tail=tail):
                 yield mk_case(rng, small, 3, trailing, segs, pol, later, 0, env, "exh-" + name)
+    # declared lengths at and beyond the 32-bit limits with only a few body bytes sent, some of them in the segment that completes
+    # the head (or already buffered when the socket is created): what has arrived is readable, nothing is dropped, no end-of-body
+    for big in (2**31 - 1, 2**31, 2**31 + 5, 2**32 - 1, 2**32, 2**32 + 7, 6 * 2**30, 2**40):
+        hd = {"head": b"POST /p HTTP/1.1\r\nContent-Length: %d" % big, "raw": b"/p"}
+        for sent in (b"x", b"0123456789", b"a\r\n\r\nb"):
+            stream = hd["head"] + b"\r\n\r\n" + sent
+            hl = len(hd["head"]) + 4
+            for name, pol, later in POLICIES[:5]:
+                for segs in ([stream], [stream[:hl - 2], stream[hl - 2:]], [stream[:hl + 1], stream[hl + 1:]], [stream[:hl], stream[hl:]]):
+                    segs = [x for x in segs if x]
+                    yield mk_case(rng, hd, big, b"", segs, pol, later, rng.choice([0, 0, 1, 99]), env, "huge-declared-" + name)
